@@ -33,6 +33,7 @@ func init() {
 func runC14(p *Prog, r *Report, tier string) {
 	gs := exporterGuardSpec()
 	_, accs := checkGuardedBy(p, r, gs, "R-LOCK", "pkg/exporter")
+	checkLockBearingReceivers(p, r, "R-LOCK.receiver", "pkg/exporter")
 	if len(accs) < 8 {
 		r.Undecided("R-LOCK.guarded", "anchor: accesses of ExportingProcess.templatesMap", "pkg/exporter/process.go", fmt.Sprintf("only %d guarded accesses found", len(accs)))
 	}
